@@ -59,3 +59,16 @@ Definition ident_usage (es : list event) : N :=
 (* markers *)
 Definition is_marker (e : event) : bool := match e with EMarker _ => true | _ => false end.
 Definition marker_usage (es : list event) : N := count_if is_marker es.
+
+(* arrays delivered in one event: the size of their data in bytes *)
+Definition whole_array_bytes (e : event) : option N :=
+  match e with
+  | EArray _ _ d | EStringArray _ d | EMedia _ d | ECustomBin _ d | ECustomText _ d => Some (blen d)
+  | _ => None
+  end.
+Definition whole_array_usage (es : list event) : N :=
+  fold_right (fun e z => match whole_array_bytes e with Some n => N.max n z | None => z end) 0 es.
+
+(* arrays delivered in pieces: chunk headers and chunk data *)
+Definition is_chunk_event (e : event) : bool := match e with EArrayChunk _ _ | EArrayData _ => true | _ => false end.
+Definition no_chunks (es : list event) : bool := forallb (fun e => negb (is_chunk_event e)) es.
